@@ -13,7 +13,7 @@ RULE = ("Hypothesis-generated clique covers: V <= 12 (quick) / 25 vertices numbe
         "counts per occurring size, relative-frequency table, clique-size profile identity, and sampling + generation "
         "with clique motifs of the reported sizes. Non-trivial = >= 2 distinct clique sizes; distinct = canonical JSON")
 ASSUMPTIONS = ["vertex ids are contiguous from 0 or from 1 and every vertex lies in some cover clique (the documented input)"]
-BUDGET = {"quick": (16, 300), "thorough": (16, 5000)}
+BUDGET = {"quick": (16, 300), "thorough": (16, 15000)}
 
 
 @st.composite
@@ -73,9 +73,44 @@ def strategy(tier):
     return cover_case(tier)
 
 
+def enumerated(tier, seed):
+    """statistical clause: sampling from the cover's distribution reproduces the per-vertex tuple frequencies (and so
+    the clique-size profile).  Hub-first covers: distinct tuples are first met in non-ascending order."""
+    covers = [
+        [[0, 1], [0, 2], [0, 3], [0, 4, 5], [0, 6, 7], [1, 2, 8], [3, 9], [4, 9], [5, 10, 11]],
+        [[1, 2, 3, 4], [1, 5], [1, 6], [1, 7], [2, 5, 8], [3, 6], [4, 7, 9], [8, 9], [9, 10]],
+        [[0, 1, 2], [0, 3, 4], [0, 5], [1, 5], [2, 6], [3, 6], [4, 6], [6, 7]],
+    ]
+    n = 20000 if tier == "quick" else 100000
+    return [{"stat": True, "cover": c, "N": n, "seed": seed * 50 + i} for i, c in enumerate(covers)]
+
+
+def stat_check(case):
+    from gcmpy import JointDegreeCover, JointDegreeNames as JN
+    from vlib import stats
+    cover = [list(c) for c in case["cover"]]
+    ld = call("construct", JointDegreeCover, {JN.COVER: cover})
+    jdd = dict(ld.jdd)
+    with rng.seeded(case["seed"]):
+        out = call("sample", ld.sample_jds_from_jdd, case["N"])
+    cnt = Counter(tuple(x) for x in out)
+    keys = list(jdd)
+    tot = sum(cnt.get(k, 0) for k in keys)
+    obs = [cnt.get(k, 0) for k in keys]
+    exp = [tot * jdd[k] for k in keys]
+    s, df, p = stats.chi2_test(obs, exp)
+    if p < stats.ALPHA:
+        raise Violation("sample-frequencies", f"sampling from the cover distribution does not reproduce it: observed "
+                                              f"{dict(zip(keys, obs))}, expected {dict(zip(keys, [round(e) for e in exp]))}, "
+                                              f"chi2={s:.1f} df={df} p={p:.3g}")
+    return {"nontrivial": len(keys) >= 2, "classes": ["statistical"], "notes": {"p_sample": p}}
+
+
 def check(case):
     from gcmpy import JointDegreeCover, JointDegreeNames as JN, JointDegreeDistribution, JointDegreeType
     from gcmpy import GCMAlgorithmFast, GCMAlgorithmNames as GN, clique_motif, EECC
+    if case.get("stat"):
+        return stat_check(case)
     classes = set()
     if "eecc" in case:
         e = case["eecc"]
